@@ -1,5 +1,6 @@
 CONFIG = dict(
     level="exploration",
+    valgrind_sample=240,
     programs=[("Sim1", "default", 2500, 7, 100000, 7), ("Sim2", "default", 4000, 2, 120000, 3),
               ("Sim3", "default", 4000, 2, 120000, 2), ("Sim1", "wide", 800, 2, 30000, 3),
               ("Sim3", "compound", 0, 0, 30000, 1), ("Sim4", "default", 400, 1, 30000, 1), ("LDAP", "compound", 300, 1, 40000, 2)],
